@@ -119,7 +119,10 @@ OnFItem(mm, e) ==
   CASE e.op = "acquire" ->
          LET r2 == mm.itemsRunning \cup {<<e.step, e.i>>}
              n  == Cardinality({x \in r2 : x[1] = e.step})
-             p  == {x[2] : x \in {y \in mm.par : y[1] = e.step}}
+             \* the bound is the one the workflow text declares (1 when it declares none), not the one the
+             \* implementation computed; the computed one is only used for loops whose bound is an expression
+             p  == IF e.step \in DOMAIN Case.declPar THEN {Case.declPar[e.step]}
+                   ELSE {x[2] : x \in {y \in mm.par : y[1] = e.step}}
          IN  VS([mm EXCEPT !.itemsRunning = r2],
                 IF p # {} /\ n > (CHOOSE x \in p : TRUE) THEN {<<"C13", "more-items-running-than-parallelism-allows", e.step>>} ELSE {})
     [] e.op = "release" -> [mm EXCEPT !.itemsRunning = @ \ {<<e.step, e.i>>}]
@@ -175,7 +178,11 @@ OnEval(mm, e) ==
       mm1  == [mm EXCEPT !.ev = [node |-> node, ok |-> e.ok, obs |-> obs], !.evalFailed = @ \/ ~e.ok]
       cReady == IF KnownNode(node) /\ (node \notin mm.popped \/ mm.g.st[node] # "W")
                   THEN {<<"C02", "evaluated-before-dependencies-resolved", node>>} ELSE {}
-      cOk == {}   \* a failing evaluation is legal; it must surface as a returned error (checked at Return / Final)
+      \* a failing evaluation is legal in general (it must surface as a returned error: checked at Return / Final), but in
+      \* a workflow whose expressions are all total over what their producers emit (Case.pure, set by the generator)
+      \* a failure means a produced value was not there when its consumer was evaluated
+      cOk == IF ~e.ok /\ Case.pure /\ KnownNode(node)
+               THEN {<<IF isOut THEN "C03" ELSE "C02", "produced-value-missing-when-its-consumer-was-evaluated", node>>} ELSE {}
       checks ==
         IF ~e.ok \/ ~KnownNode(node) THEN {}
         ELSE IF isStage THEN
